@@ -224,14 +224,14 @@ def main():
                 fr = s['frags'][0]
                 key = fr['r1']['rev'] if fr['hasR1'] else (not fr['r2']['rev'])
                 pool.setdefault(key, []).append(fr)
-            for _ in range(150 if tier == 'quick' else 3000):
+            for _ in range(150 if tier == 'quick' else 1200):
                 key = rng.choice(sorted(pool))
                 k = rng.randint(2, 5)
                 mol = scenario_to_mol({'frags': [rng.choice(pool[key]) for _ in range(k)]})
                 do_molecule(mol, 3, 2)
 
         # (2) random realistic molecules
-        n_mol = 400 if tier == 'quick' else 4500
+        n_mol = 400 if tier == 'quick' else 1800
         for k in range(n_mol):
             full = tier != 'quick' and k % 10 == 0    # every permutation up to 5 fragments, 50 random ones beyond
             do_molecule(gen_molecule(rng, ref, tier), 5 if full else 3, 50 if full else 4)
